@@ -5,9 +5,10 @@ from .core import fresh, sort_of, RefS, Unsupported
 
 class Snap:
     """immutable snapshot of the heap (for old(), labels, invariant base)"""
-    __slots__ = ("heap", "epoch", "cells", "bound")
+    __slots__ = ("heap", "epoch", "cells", "bound", "nnew")
 
-    def __init__(self, heap, epoch, cells, bound=None):
+    def __init__(self, heap, epoch, cells, bound=None, nnew=0):
+        self.nnew = nnew
         self.heap = heap
         self.epoch = epoch
         self.cells = cells
@@ -45,6 +46,8 @@ class State:
         self.old = None           # Snap at function entry
         self.labels = {}
         self.inv_base = None
+        self.inv_over = {}          # (class, invariant) -> Snap: invariants whose last consistent point differs from inv_base
+        self.inv_hist = ()          # earlier consistent points of this segment: (Snap, scope)
         self.touched = frozenset()
         self.new_objs = ()        # (term, clsname) allocated on this path
         self.depth = 0
@@ -71,6 +74,8 @@ class State:
         s.old = self.old
         s.labels = dict(self.labels)
         s.inv_base = self.inv_base
+        s.inv_over = dict(self.inv_over)
+        s.inv_hist = self.inv_hist
         s.touched = self.touched
         s.new_objs = self.new_objs
         s.depth = self.depth
@@ -89,7 +94,7 @@ class State:
         return self.frames[-1]
 
     def snap(self):
-        return Snap(dict(self.heap), self.epoch, dict(self.cells), self.clock)
+        return Snap(dict(self.heap), self.epoch, dict(self.cells), self.clock, len(self.new_objs))
 
     def assume(self, cond):
         if z3.is_true(cond):
@@ -140,7 +145,7 @@ class HeapSpace:
         return self.consts[k]
 
     def array_axioms(self, arr, key, bound):
-        out = list(self.born_before(arr, bound)) if self.born_before else []
+        out = list(self.born_before(arr, bound, key)) if self.born_before else []
         if key.endswith("#n"):
             x = z3.Const("x!len", RefS)
             out.append(z3.ForAll([x], z3.Select(arr, x) >= 0, patterns=[z3.Select(arr, x)]))
